@@ -26,6 +26,7 @@ func init() {
 			{ID: "C14.4", Desc: "maintenance API addresses the same keys and bytes", Run: ruleC14_4, MinSites: 3},
 			{ID: "C14.5", Desc: "file-name codec agreement", Run: ruleC14_5, MinSites: 2},
 			{ID: "C14.6", Desc: "prefix listing filters the decoded key", Run: ruleC14_6, MinSites: 1},
+			{ID: "C14.7", Desc: "a file name returned as one path component is bounded by the file-name limit", Run: ruleC14_7, MinSites: 1},
 		},
 	})
 }
@@ -755,5 +756,88 @@ func ruleC14_6(c *Ctx) {
 	}
 	if n == 0 {
 		c.Fail("C14.6", "prefix-on-decoded-key", "key listing compares the decoded key with the requested prefix", "no HasPrefix(decodedKey, prefix) in the file-system backend; the filter may run on encoded names")
+	}
+}
+
+// ruleC14_7: a key of any length must be storable. The namer returns the encoded key either as one path component or split
+// into fragments; the one-component return is only legal when the length OF THE RETURNED STRING is at most 255 bytes (the
+// common limit for a file name). Comparing some other length (the key's) lets 192..255-byte keys through as 256..340-byte
+// components that the file system rejects.
+func ruleC14_7(c *Ctx) {
+	fp := c.P.Pkg("store/fscache")
+	if fp == nil {
+		return
+	}
+	desc := "the namer returns a single path component only when that component's own length is at most 255"
+	n := 0
+	for _, fn := range c.P.RepoFuncs {
+		if fn.Pkg != fp || fn.Parent() != nil {
+			continue
+		}
+		ps, rs := sigParams(fn), sigResults(fn)
+		if !(len(ps) == 1 && len(rs) == 1 && isStringType(ps[0]) && isStringType(rs[0]) && callsNamed(fn, "EncodeToString")) {
+			continue
+		}
+		for _, b := range fn.Blocks {
+			r, ok := b.Instrs[len(b.Instrs)-1].(*ssa.Return)
+			if !ok || len(r.Results) != 1 {
+				continue
+			}
+			rv := r.Results[0]
+			// fragmented return: built by a path join
+			if c.An.dependsOnCall(rv, func(cc *ssa.Call) bool {
+				return callIsPkgFunc(&cc.Call, "path/filepath", "Join") || callIsPkgFunc(&cc.Call, "path", "Join") || callIsPkgFunc(&cc.Call, "strings", "Join")
+			}) {
+				continue
+			}
+			n++
+			where := c.P.ShortName(fn) + "@" + c.P.InstrPos(r)
+			bounded := ""
+			other := ""
+			for _, dc := range dominatingConds(b) {
+				for _, lf := range condLeaves(dc.cond, dc.onTrue) {
+					bo, ok := lf.v.(*ssa.BinOp)
+					if !ok {
+						continue
+					}
+					op := bo.Op
+					if !lf.val {
+						op = negTok(op)
+					}
+					l, rr := bo.X, bo.Y
+					if _, lc := l.(*ssa.Const); lc {
+						l, rr = rr, l
+						op = swapTok(op)
+					}
+					k, isK := constInt(rr)
+					lc, isLen := l.(*ssa.Call)
+					if !isK || !isLen {
+						continue
+					}
+					if bi, isB := lc.Call.Value.(*ssa.Builtin); !isB || bi.Name() != "len" {
+						continue
+					}
+					if !((op == token.LEQ && k <= 255) || (op == token.LSS && k <= 256)) {
+						continue
+					}
+					if c.An.sameCanon(lc.Call.Args[0], rv) {
+						bounded = c.P.InstrPos(bo)
+					} else {
+						other = c.P.InstrPos(bo) + " `" + bo.String() + "` measures `" + lc.Call.Args[0].Name() + "`"
+					}
+				}
+			}
+			switch {
+			case bounded != "":
+				c.Pass("C14.7", "component-bounded fn="+c.P.ShortName(fn), desc, where+" under "+bounded)
+			case other != "":
+				c.Fail("C14.7", "component-bounded fn="+c.P.ShortName(fn), desc, where+": the limit test "+other+", not the returned string; keys of 192..255 bytes encode to components of 256..340 bytes: Set fails, Get/Delete report `file name too long` instead of ErrNotExist")
+			default:
+				c.Fail("C14.7", "component-bounded fn="+c.P.ShortName(fn), desc, where+": no length test of the returned string against the file-name limit")
+			}
+		}
+	}
+	if n == 0 {
+		c.Undecided("C14.7", "component-bounded", desc, "no single-component return in a file namer of store/fscache")
 	}
 }
